@@ -15,12 +15,12 @@ Definition strip_action (a : action) : action :=
 Definition db_step (d : schema) (a : action) : schema := step_schema d (strip_action a).
 Definition final_db (d : schema) (acts : list action) : schema := fold_left db_step acts d.
 
-(* the statements are generated from the planner's schema, executed against the database's *)
-Definition gen_agree (s d : schema) (a : action) : bool :=
-  match gen s [] a, gen d [] (strip_action a) with
-  | Ok q, Ok q' => stmts_eqb q q'
-  | _, _ => false
-  end.
+(* the statements are generated from the planner's schema and executed against the database's: the two must have
+   the same tables with the same columns (name, type, nullability, default, comment); inline declarations and the
+   constraint lists are where they differ *)
+Definition table_core (t : table_def) : string * list column_def := (t_name t, map strip_col (t_columns t)).
+Definition same_core (s d : schema) : bool :=
+  dec_b (list_eq_dec (pair_eq_dec string_dec (list_eq_dec column_def_eq_dec))) (map table_core s) (map table_core d).
 
 (* decidable equality of catalogs *)
 Definition pg_col_eq_dec (x y : pg_col) : {x = y} + {x <> y}.
@@ -47,8 +47,8 @@ Proof.
 Defined.
 Definition cat_eqb (a b : catalog) : bool := dec_b catalog_eq_dec a b.
 
-(* one step: the generator output agrees, and the step on the database's schema falls under a proved lemma *)
-Definition sim_hyp2 (s d : schema) (a : action) : bool := (gen_agree s d a && sim_hyp d (strip_action a))%bool.
+(* one step: same tables and columns on both sides, and the step on the database's schema falls under a proved lemma *)
+Definition sim_hyp2 (s d : schema) (a : action) : bool := (same_core s d && sim_hyp d (strip_action a))%bool.
 Fixpoint all_sim (s : schema) (acts : list action) : bool :=
   match acts with
   | [] => true
@@ -67,16 +67,30 @@ Definition pending_settled (s : schema) (acts : list action) : bool :=
 Definition plan_hyp (s : schema) (acts : list action) : bool := all_sim s acts.
 Definition plan_hyp_pending (s : schema) (acts : list action) : bool :=
   (all_sim2 s s acts && pending_settled s acts)%bool.
+Definition plan_ok (s : schema) (acts : list action) : bool := (plan_hyp s acts || plan_hyp_pending s acts)%bool.
+Fixpoint history_ok (s : schema) (h : list (list action)) : bool :=
+  match h with
+  | [] => true
+  | acts :: r => (plan_ok s acts && history_ok (fold_left step_schema acts s) r)%bool
+  end.
+
+(* what the check reports: generated plans under the hypotheses of the plan-level theorems, before (Sim_plan) and
+   after (Sim_plan_pending) the pending-set invariant; a plan under either theorem on which the oracle fails would
+   contradict the theorem (given K-sql agreement): it must not exist *)
+Definition oracle_ok (k : pg_case) : bool := match oracle k with OOk => true | _ => false end.
+Fixpoint count_sim2 (s d : schema) (acts : list action) : nat :=
+  match acts with
+  | [] => O
+  | a :: r => (if sim_hyp2 s d a then 1 else 0) + count_sim2 (step_schema s a) (db_step d a) r
+  end.
 Definition plan_stats (cs : list pg_case) : list (string * nat) :=
   let count (p : pg_case -> bool) := List.length (filter p cs) in
   [("plans", List.length cs);
    ("plans_under_Sim_plan", count (fun k => plan_hyp (g_baseline k) (g_actions k)));
    ("plans_under_Sim_plan_pending", count (fun k => plan_hyp_pending (g_baseline k) (g_actions k)));
-   ("plans_under_either", count (fun k => (plan_hyp (g_baseline k) (g_actions k)
-                                           || plan_hyp_pending (g_baseline k) (g_actions k))%bool));
-   ("plans_outside_known_classes",
-    count (fun k => (fix go (s : schema) (acts : list action) :=
-                       match acts with
-                       | [] => true
-                       | a :: r => (outside_classes s a r && go (step_schema s a) r)%bool
-                       end) (g_baseline k) (g_actions k)))].
+   ("plans_under_either", count (fun k => plan_ok (g_baseline k) (g_actions k)));
+   ("plans_under_either_with_oracle_failure",
+    count (fun k => (plan_ok (g_baseline k) (g_actions k) && negb (oracle_ok k))%bool));
+   ("plans_with_oracle_ok", count oracle_ok);
+   ("steps_under_a_proved_sim_lemma_on_the_database_schema",
+    fold_left (fun n k => n + count_sim2 (g_baseline k) (g_baseline k) (g_actions k)) cs O)].
